@@ -32,18 +32,22 @@ def _value(rng, prec, mode):
         return rng.choice([lim, -lim, lim / 2, 0.0, prec, -prec, prec * 0.999, 3 * prec * 1.0000001])
     if mode == 3:
         return rng.gauss() * rng.loguniform(prec, lim / 4)
+    if mode == 5:     # domain boundary: large same-sign samples (window sums far beyond 32 bits, squares near the 64-bit limit)
+        return rng.uniform(0.6 * lim, lim)
+    if mode == 6:
+        return -rng.uniform(0.6 * lim, lim)
     return rng.uniform(-lim, lim)
 
 
 def _stat_case(rng, kind, W, prec, n_ops, name):
     lines = ['%s.new %s %d' % (kind, D(prec), W)]
-    mode = rng.below(5)
+    mode = rng.below(7)
     p_reset = rng.choice([0.0, 0.02, 0.1, 0.3])
     for _ in range(n_ops):
         if rng.chance(p_reset):
             lines.append('stat.reset')
         else:
-            v = _value(rng, prec, mode if rng.chance(0.8) else rng.below(5))
+            v = _value(rng, prec, mode if rng.chance(0.9) else rng.below(7))
             lim = 1e8 * prec
             v = max(-lim, min(lim, v))
             lines.append('stat.upd ' + D(v))
@@ -81,6 +85,11 @@ def gen_cases(rng, tier):
                   'lines': ['var.new %s 4' % D(1e-5)] + ['stat.upd ' + D(x) for x in (1.0, 2.0, 1.0, 2.0, 1.5, 3.25)]})
     cases.append({'name': 'regress-ring-cap3', 'meta': {'cap': 3},
                   'lines': ['ring.new 3'] + ['ring.app %d' % i for i in (1, 2, 3, 4)] + ['ring.get 0', 'ring.get 1', 'ring.get 2', 'ring.clear', 'ring.app 9', 'ring.get 0', 'ring.app 10', 'ring.get 1', 'ring.dump']})
+    for W in (22, 32, 64):
+        for kind in ('avg', 'var'):
+            lim = 1e8 * 1e-3 * 0.999
+            cases.append({'name': 'boundary-large-same-sign-%s-W%d' % (kind, W), 'meta': {'kind': kind, 'W': W, 'prec': 1e-3},
+                          'lines': ['%s.new %s %d' % (kind, D(1e-3), W)] + ['stat.upd ' + D(lim * (0.9 + 0.1 * ((i * 7) % 10) / 10.0)) for i in range(3 * W + 5)]})
     reps = 1 if tier == 'quick' else 12
     for rep in range(reps):
         for W in range(1, 65):
